@@ -365,6 +365,25 @@ class Symbols:
                 except TypeError:
                     return Unknown
             return d2
+        if isinstance(e, (ast.GeneratorExp, ast.ListComp, ast.SetComp)) and len(e.generators) == 1:
+            g = e.generators[0]
+            it = self._iter_items(g.iter, modname, env)
+            if it is Unknown or g.is_async:
+                return Unknown
+            outl: list[Any] = []
+            for item in it:
+                env2 = dict(env)
+                if not _bind(g.target, item, env2):
+                    return Unknown
+                keep = True
+                for cond in g.ifs:
+                    c = self.eval(cond, modname, env2)
+                    if c is Unknown:
+                        return Unknown
+                    keep = keep and bool(c)
+                if keep:
+                    outl.append(self.eval(e.elt, modname, env2))
+            return outl if not isinstance(e, ast.SetComp) else frozenset(outl)
         if isinstance(e, ast.Call):
             fn = e.func
             if isinstance(fn, ast.Name) and not e.keywords:
@@ -380,6 +399,14 @@ class Symbols:
                         return frozenset(_as_iter(args[0]))
                     if fn.id == "set" and len(args) == 1:
                         return frozenset(_as_iter(args[0]))
+                    if fn.id == "sorted" and len(args) == 1:
+                        return sorted(_as_iter(args[0]))
+                    if fn.id == "reversed" and len(args) == 1:
+                        return list(reversed(list(_as_iter(args[0]))))
+                    if fn.id == "range":
+                        return list(range(*[_num(a) for a in args]))
+                    if fn.id == "dict" and len(args) == 1 and isinstance(args[0], dict):
+                        return dict(args[0])
                     if fn.id == "len" and len(args) == 1:
                         return len(args[0])
                     if fn.id in ("min", "max"):
